@@ -26,7 +26,7 @@ import (
 )
 
 func init() {
-	core.Register(core.Check{ID: "C06", Level: "model_checking", Run: func(c *core.Ctx) { runC06(c, false); reentrancyPass(c, "C06") }})
+	core.Register(core.Check{ID: "C06", Level: "model_checking", Run: func(c *core.Ctx) { runC06(c, false); historyPass(c, "C06"); reentrancyPass(c, "C06") }})
 	core.Register(core.Check{ID: "C06purego", Level: "other", Run: func(c *core.Ctx) { runC06(c, true) }})
 }
 
